@@ -342,7 +342,28 @@ func (vc *VC) evalKnown(key string, callee *types.Func, recv Value, call *ast.Ca
 		vc.assume(tBool(true), Term{fmt.Sprintf("(= (not (= %s err.nil)) (or %s))", e.S, strings.Join(nonnil, " ")), SBool, nil})
 		vc.assume(tBool(true), Term{fmt.Sprintf("(forall ((y! Err)) (! (=> (not (= %s err.nil)) (= (err.is %s y!) (or (= y! %s) %s))) :pattern ((err.is %s y!))))", e.S, e.S, e.S, strings.Join(is, " "), e.S), SBool, nil})
 		return []Value{e}, true
-	case "fmt.Sprintf", "fmt.Sprint", "fmt.Sprintln":
+	case "fmt.Sprintf":
+		// a deterministic, otherwise unknown function of the format and operands
+		if tv, ok := vc.cur().info.Types[call.Args[0]]; ok && tv.Value != nil && tv.Value.Kind() == constant.String {
+			var args []Term
+			okArgs := true
+			for _, a := range call.Args[1:] {
+				v, isT := vc.evalExprNoSafety(a, st).(Term)
+				if !isT {
+					okArgs = false
+					break
+				}
+				args = append(args, v)
+			}
+			if okArgs {
+				return []Value{vc.fmtFn(constant.StringVal(tv.Value), args)}, true
+			}
+		}
+		for _, a := range call.Args {
+			vc.evalExprNoSafety(a, st)
+		}
+		return []Value{vc.freshOfSort("fmt", SStr, types.Typ[types.String])}, true
+	case "fmt.Sprint", "fmt.Sprintln":
 		for _, a := range call.Args {
 			vc.evalExprNoSafety(a, st)
 		}
@@ -367,6 +388,19 @@ func (vc *VC) evalKnown(key string, callee *types.Func, recv Value, call *ast.Ca
 		return []Value{Term{fmt.Sprintf("(ite (and (<= 0 %s) (< %s 256)) (and (<= 48 %s) (<= %s 57)) (%s %s))", r.S, r.S, r.S, r.S, fn, r.S), SBool, types.Typ[types.Bool]}}, true
 	}
 	return nil, false
+}
+
+// fmtFn: fmt.Sprintf(format, args...) as an uninterpreted function per format
+// string and operand sorts (deterministic; the text itself is not modelled).
+func (vc *VC) fmtFn(format string, args []Term) Term {
+	name := fmt.Sprintf("sprintf.%x", hashString(format))
+	var sorts []string
+	for _, a := range args {
+		sorts = append(sorts, string(a.Sort))
+		name += "." + sanitize(string(a.Sort))
+	}
+	vc.ss.declare(&sortInfo{Name: Sort("fn$" + name), Kind: "const", Decl: fmt.Sprintf("(declare-fun %s (%s) Str) ; %q", name, strings.Join(sorts, " "), format)})
+	return Term{app(name, args...), SStr, types.Typ[types.String]}
 }
 
 // newError models fmt.Errorf: a fresh non-nil error whose Is-chain contains
